@@ -447,9 +447,15 @@ def cases(tier, seed, rng_for, sysm):
         for ci, comp in enumerate(compilers):
             if comp == 'clang' and di % 3 and tier != 'quick':
                 continue      # clang on every third DAG keeps thorough in budget
-            for mode in MODES:
+            for mi, mode in enumerate(MODES):
                 yield {'dag': tag, 'mode': list(mode), 'compiler': comp,
                        'sysm': sysm, 'nodes': nodes}
+                # the Ninja back end has its own link/rpath emitters: the same project is also
+                # driven through the reference Ninja evaluator (one mode per DAG in quick,
+                # rotating; every mode in thorough, gcc only)
+                if comp == 'gcc' and (tier != 'quick' or mi == di % len(MODES)):
+                    yield {'dag': tag, 'mode': list(mode), 'compiler': comp,
+                           'backend': 'ninja', 'sysm': sysm, 'nodes': nodes}
 
 
 # --------------------------------------------------------------------------
